@@ -18,6 +18,8 @@ use std::rc::Rc;
 pub struct DynSum {
     pub len: usize,
     pub with_bind: bool,
+    /// start from an already observed and stabilised graph (those three actions are not counted)
+    pub warm: bool,
 }
 
 const C_VAR: usize = 0;
@@ -48,6 +50,8 @@ struct Sh {
     did_stale: Cell<bool>,
     did_invalidate: Cell<bool>,
     reconciles: Cell<u32>,
+    /// reconcile adds the new dependencies before removing the old ones (the usual join order)
+    add_first: Cell<bool>,
 }
 
 struct W {
@@ -65,6 +69,7 @@ struct W {
     dirty: bool,
     invalidated: bool,
     with_bind: bool,
+    kept_once: bool,
 }
 
 impl W {
@@ -92,10 +97,9 @@ impl W {
     }
 }
 
-fn reconcile(sh: &Rc<Sh>, expert: &WeakNode<SV>, children: &[Incr<SV>]) {
-    sh.reconciles.set(sh.reconciles.get() + 1);
+fn remove_phase(sh: &Rc<Sh>, expert: &WeakNode<SV>) {
     let plan = *sh.plan.borrow();
-    // 1. drop dependencies on scope nodes of an earlier run of the bind closure, and surplus ones
+    // drop dependencies on scope nodes of an earlier run of the bind closure, and surplus ones
     loop {
         let victim = {
             let edges = sh.edges.borrow();
@@ -105,6 +109,9 @@ fn reconcile(sh: &Rc<Sh>, expert: &WeakNode<SV>, children: &[Incr<SV>]) {
                 if e.child == C_SCOPE && e.gen != sh.scope_gen.get() {
                     v = Some(i);
                     cover("dependency-on-invalidated-child-removed");
+                    if i + 1 < edges.len() {
+                        cover("removed-dependency-on-invalidated-child-was-not-the-last-edge");
+                    }
                     break;
                 }
                 count[e.child] += 1;
@@ -123,10 +130,13 @@ fn reconcile(sh: &Rc<Sh>, expert: &WeakNode<SV>, children: &[Incr<SV>]) {
         }
         expert.remove_dependency(e.dep);
     }
-    // 2. add what the plan wants
+}
+
+fn add_phase(sh: &Rc<Sh>, expert: &WeakNode<SV>, children: &[Incr<SV>]) {
+    let plan = *sh.plan.borrow();
     for c in 0..4 {
         loop {
-            let have = sh.edges.borrow().iter().filter(|e| e.child == c).count() as u8;
+            let have = sh.edges.borrow().iter().filter(|e| e.child == c && (c != C_SCOPE || e.gen == sh.scope_gen.get())).count() as u8;
             if have >= plan[c] {
                 break;
             }
@@ -151,6 +161,17 @@ fn reconcile(sh: &Rc<Sh>, expert: &WeakNode<SV>, children: &[Incr<SV>]) {
             sh.edges.borrow_mut().push(Edge { id, child: c, gen: sh.scope_gen.get(), dep });
         }
     }
+}
+
+fn reconcile(sh: &Rc<Sh>, expert: &WeakNode<SV>, children: &[Incr<SV>]) {
+    sh.reconciles.set(sh.reconciles.get() + 1);
+    if sh.add_first.get() {
+        add_phase(sh, expert, children);
+        remove_phase(sh, expert);
+    } else {
+        remove_phase(sh, expert);
+        add_phase(sh, expert, children);
+    }
     if sh.want_stale.replace(false) {
         expert.make_stale();
         sh.did_stale.set(true);
@@ -165,7 +186,7 @@ fn reconcile(sh: &Rc<Sh>, expert: &WeakNode<SV>, children: &[Incr<SV>]) {
 
 impl Scenario for DynSum {
     fn name(&self) -> String {
-        if self.with_bind { "C14/dynamic_sum_with_bind_children".into() } else { "C14/dynamic_sum".into() }
+        format!("C14/dynamic_sum{}{}", if self.with_bind { "_with_bind_children" } else { "" }, if self.warm { "_warm" } else { "" })
     }
     fn run(&self) {
         let state = IncrState::new();
@@ -194,6 +215,7 @@ impl Scenario for DynSum {
             did_stale: Cell::new(false),
             did_invalidate: Cell::new(false),
             reconciles: Cell::new(0),
+            add_first: Cell::new(false),
         });
         let x2w = xs[2].0.watch();
         let sh_b = sh.clone();
@@ -241,11 +263,23 @@ impl Scenario for DynSum {
         };
         expert.add_dependency(&reconcile_node);
         let top = expert.watch().map(|x| app(5, &[x.clone()]));
-        let mut w = ManuallyDrop::new(W { state, xs, selb, ctl, children, expert, top, obs: None, obs_in_use: false, keep_child_obs: None, sh, dirty: false, invalidated: false, with_bind });
+        let mut w = ManuallyDrop::new(W { state, xs, selb, ctl, children, expert, top, obs: None, obs_in_use: false, keep_child_obs: None, sh, dirty: false, invalidated: false, with_bind, kept_once: false });
+        let warm = self.warm;
         let r = catch(|| {
+            w.sh.add_first.set(choose(2) == 1);
+            op_log(format!("reconcile order: {}", if w.sh.add_first.get() { "add then remove" } else { "remove then add" }));
+            if warm {
+                w.keep_child_obs = Some(w.children[C_MAP].observe());
+                w.obs = Some(w.top.observe());
+                w.sh.round.set(1);
+                w.state.stabilise();
+                w.obs_in_use = true;
+                op_log("(warm start: KeepChild, Observe, Stabilise)".into());
+            }
             for _ in 0..self.len {
                 #[derive(Debug, Clone)]
                 enum A {
+                    DropKeepChild,
                     Plan(usize, u8),
                     WriteCtl,
                     WriteX(usize),
@@ -281,7 +315,11 @@ impl Scenario for DynSum {
                     acts.push(A::Unobserve);
                 }
                 if w.keep_child_obs.is_none() {
-                    acts.push(A::KeepChild);
+                    if !w.kept_once {
+                        acts.push(A::KeepChild);
+                    }
+                } else {
+                    acts.push(A::DropKeepChild);
                 }
                 if !w.sh.want_stale.get() && !w.sh.did_stale.get() {
                     acts.push(A::AskStale);
@@ -325,6 +363,12 @@ impl Scenario for DynSum {
                         w.obs = None;
                         w.dirty = true;
                         cover("expert-unobserved");
+                    }
+                    A::DropKeepChild => {
+                        w.keep_child_obs = None;
+                        w.kept_once = true;
+                        w.dirty = true;
+                        cover("computed-child-became-unnecessary");
                     }
                     A::KeepChild => {
                         // a child shared with another consumer stays necessary without the expert node
